@@ -25,6 +25,7 @@ CONSTANTS
   GENBAL,            \* initial balance of every account
   BFS,               \* base fees a block may have
   BATCH,             \* "no": no multi-message txs; "first": a two-message Cosmos tx may open a behaviour; "block": may open any block
+  WCS,               \* word classes of calls to the storage fixture: "zero" (clear), "same", "new" (another non-zero value)
   OPS,               \* restaking operations sent through gw / w: "dep", "dlg", "und", and "dlgx"/"undx" (amount above what is available)
   GEN                \* TRUE: random choice of every field (behaviour generation by -simulate)
 
@@ -34,6 +35,8 @@ vars == <<st, hist, ntx, nblk, last>>
 
 INTR == 21
 CALLCOST == 9
+\* abstract gas schedule of the storage fixture (same shape as the real one: set > reset > cold > noop, clear < reset)
+c_FIX == [exec |-> 3, cold |-> 2, noop |-> 1, set |-> 8, reset |-> 4, clear |-> 3, quot |-> 5]
 
 ModesOf(to) ==
   IF to \in ACCTS THEN {"ok"}
@@ -45,18 +48,25 @@ ModesOf(to) ==
 
 Floor(s) == NMax(s.bf, (MINGP + PREC - 1) \div PREC)
 
+AbsWord(s, k) ==
+  IF k.to # "c" THEN 7
+  ELSE CASE k.wc = "zero" -> 0 [] k.wc = "same" -> s.stor["c"] [] k.wc = "new" -> (IF s.stor["c"] = 1 THEN 2 ELSE 1)
+
 \* classes -> abstract transaction on state s
 AbsTx(s, k) ==
   LET bal == s.bal[k.s]
       gas == CASE k.gl = "lo" -> INTR - 1 [] k.gl = "intr" -> INTR [] k.gl = "mid" -> INTR + 5
                [] k.gl = "big" -> 100 [] k.gl = "large" -> 60 [] k.gl = "huge" -> BLOCKGAS + 1
+               \* "fit": just what a successful execution needs (the minimum-gas floor does not bind)
+               [] k.gl = "fit" -> IF k.to = "c" THEN CRaw(s, [intr |-> INTR, ty |-> k.ty, word |-> AbsWord(s, k)])
+                                  ELSE IF k.to \in ACCTS THEN INTR ELSE INTR + CALLCOST
       f   == Floor(s)
       price == CASE k.pc = "below" -> (IF f > 0 THEN f - 1 ELSE 0) [] k.pc = "at" -> f [] k.pc = "above" -> f + 1
                  [] k.pc = "rich" -> bal \div gas + 1
       tip == IF k.ty # "dyn" THEN price
              ELSE CASE k.tc = "zero" -> 0 [] k.tc = "one" -> 1 [] k.tc = "cap" -> price [] k.tc = "over" -> price + 1
       t0  == [s |-> k.s, to |-> k.to, ty |-> k.ty, gas |-> gas, price |-> price, tip |-> tip, value |-> 0,
-              nonce |-> 0, intr |-> INTR, mode |-> k.mode, word |-> 7,
+              nonce |-> 0, intr |-> INTR, mode |-> k.mode, word |-> AbsWord(s, k),
               op |-> IF k.op \in {"dlg", "dlgx"} THEN "dlg" ELSE IF k.op \in {"und", "undx"} THEN "und" ELSE "dep",
               amt |-> CASE k.op = "dep" -> 2 [] k.op = "dlg" -> 1 [] k.op = "und" -> 1
                         [] k.op = "dlgx" -> s.wd[k.s] + 1 [] k.op = "undx" -> s.dl[k.s] + 1]
@@ -69,7 +79,7 @@ AbsTx(s, k) ==
 
 \* abstract EVM: gas consumed and vm error of executing t (after a successful ante handler) on s
 AbsOut(s, t) ==
-  LET need == IF t.to \in ACCTS THEN t.intr ELSE t.intr + CALLCOST
+  LET need == IF t.to \in ACCTS THEN t.intr ELSE IF t.to = "c" THEN CRaw(s, t) ELSE t.intr + CALLCOST
       poor == NLt(NSub(s.bal[t.s], Fee(t, s.bf)), t.value)     \* core.CanTransfer fails inside evm.Call
   IN IF poor /\ NIsPos(t.value) THEN [gasEvm |-> t.intr, vmfail |-> TRUE, gasRej |-> 0, wflag |-> 0, inner |-> FALSE]
      ELSE IF t.mode = "oog" \/ t.gas < need THEN [gasEvm |-> t.gas, vmfail |-> TRUE, gasRej |-> 0, wflag |-> 0, inner |-> FALSE]
@@ -92,6 +102,8 @@ Init ==
 
 \* choice: exhaustive (\E) or random (behaviour generation)
 Choose(S, P(_)) == IF GEN THEN (S # {} /\ P(RandomElement(S))) ELSE \E x \in S : P(x)
+\* weighted choice for generation (repeated entries), plain \E over the entries otherwise
+ChooseW(q, P(_)) == IF GEN THEN P(q[RandomElement(1..Len(q))]) ELSE \E x \in ToSet(q) : P(x)
 
 DoTx(k) ==
   LET t == AbsTx(st, k)
@@ -115,16 +127,18 @@ TxStep ==
   /\ Choose(IF GEN /\ MAXEXC = 1 THEN 1..10 ELSE ExcFields, LAMBDA ee :
      LET e == IF GEN /\ MAXEXC = 1 THEN ExcPick(ee) ELSE ee IN
      Choose(SENDERS, LAMBDA s :
-     Choose(TARGETS, LAMBDA to :
+     \* generation favours the storage fixture (histories set -> clear ... need several calls of it) and clearing words
+     ChooseW(IF GEN /\ "c" \in TARGETS THEN <<"c", "c", "c", "c">> \o SetToSeq(TARGETS) ELSE SetToSeq(TARGETS), LAMBDA to :
      Choose(IF to \in {"gw", "w"} THEN OPS ELSE {"dep"}, LAMBDA op :
-     Choose(ModesOf(to), LAMBDA mode :
+     ChooseW(IF to # "c" THEN <<"new">> ELSE IF GEN THEN <<"zero", "zero", "new", "new", "same">> ELSE SetToSeq(WCS), LAMBDA wc :
+     ChooseW(IF GEN /\ to = "c" THEN <<"ok", "ok", "ok", "rev", "oog">> ELSE SetToSeq(ModesOf(to)), LAMBDA mode :
      Choose(IF e = "tc" /\ MAXEXC < 2 THEN TYPES \cap {"dyn"} ELSE TYPES, LAMBDA ty :
      Choose(IF ty = "dyn" THEN Dom(e, "tc", TIPS_N, TIPS_X) ELSE {"cap"}, LAMBDA tc :
      Choose(Dom(e, "pc", PCS_N, PCS_X), LAMBDA pc :
      Choose(Dom(e, "gl", GLS_N, GLS_X \ (IF BLOCKGAS = 0 THEN {"huge"} ELSE {})), LAMBDA gl :
      Choose(Dom(e, "vc", VCS_N, VCS_X), LAMBDA vc :
      Choose(Dom(e, "nc", {"ok"}, NCS_X), LAMBDA nc :
-       DoTx([s |-> s, to |-> to, ty |-> ty, pc |-> pc, tc |-> tc, gl |-> gl, vc |-> vc, nc |-> nc, mode |-> mode, op |-> op]))))))))))))
+       DoTx([s |-> s, to |-> to, ty |-> ty, pc |-> pc, tc |-> tc, gl |-> gl, vc |-> vc, nc |-> nc, mode |-> mode, op |-> op, wc |-> wc])))))))))))))
 
 (***************************************************************************)
 (* one Cosmos tx with two MsgEthereumTx.  The second message's classes are  *)
@@ -135,7 +149,7 @@ TxStep ==
 (***************************************************************************)
 AbsOutExec(s, t) ==
   \* like AbsOut, but s already has every fee of the Cosmos tx deducted
-  LET need == IF t.to \in ACCTS THEN t.intr ELSE t.intr + CALLCOST IN
+  LET need == IF t.to \in ACCTS THEN t.intr ELSE IF t.to = "c" THEN CRaw(s, t) ELSE t.intr + CALLCOST IN
   IF NIsPos(t.value) /\ NLt(s.bal[t.s], t.value) THEN [gasEvm |-> t.intr, vmfail |-> TRUE, gasRej |-> 0, wflag |-> 0, inner |-> FALSE]
   ELSE IF t.mode = "oog" \/ t.gas < need THEN [gasEvm |-> t.gas, vmfail |-> TRUE, gasRej |-> 0, wflag |-> 0, inner |-> FALSE]
   ELSE IF t.mode = "rev" THEN [gasEvm |-> need - 3, vmfail |-> TRUE, gasRej |-> 0, wflag |-> 0, inner |-> FALSE]
@@ -159,21 +173,21 @@ DoBatch(k1, k2) ==
      /\ UNCHANGED nblk
 
 BTargets == TARGETS \ {"w"}
-\* weighted choice for generation (repeated entries), plain \E over the entries otherwise
-ChooseW(q, P(_)) == IF GEN THEN P(q[RandomElement(1..Len(q))]) ELSE \E x \in ToSet(q) : P(x)
+
 \* generation favours what the batch path is about: the same sender again, and contract creations
 BPick(k0, P(_)) ==
   ChooseW(IF GEN /\ k0.s \in SENDERS THEN <<k0.s, k0.s>> \o SetToSeq(SENDERS) ELSE SetToSeq(SENDERS), LAMBDA s :
   ChooseW(IF GEN /\ "new" \in BTargets THEN <<"new", "new">> \o SetToSeq(BTargets) ELSE SetToSeq(BTargets), LAMBDA to :
   Choose(ModesOf(to), LAMBDA mode :
   Choose(IF to = "gw" THEN OPS ELSE {"dep"}, LAMBDA op :
+  Choose(IF to = "c" THEN WCS ELSE {"new"}, LAMBDA wc :
   Choose(IF GEN THEN TYPES ELSE {"leg"}, LAMBDA ty :
   Choose(IF ty = "dyn" THEN TIPS_N ELSE {"cap"}, LAMBDA tc :
   ChooseW(IF GEN THEN <<"at", "at", "above", "above", "above", "above", "below">> ELSE <<"at">>, LAMBDA pc :
-  ChooseW(IF GEN THEN <<"intr", "mid", "big", "big", "big", "large", "large", "lo">> ELSE <<"intr", "big">>, LAMBDA gl :
+  ChooseW(IF GEN THEN <<"intr", "mid", "fit", "fit", "big", "big", "big", "large", "lo">> ELSE <<"fit", "big">>, LAMBDA gl :
   ChooseW(IF GEN THEN <<"zero", "zero", "zero", "one", "one", "one", "over">> ELSE <<"one">>, LAMBDA vc :
   ChooseW(IF GEN THEN <<"ok", "ok", "ok", "ok", "ok", "ok", "ahead">> ELSE <<"ok", "ahead">>, LAMBDA nc :
-    P([s |-> s, to |-> to, ty |-> ty, pc |-> pc, tc |-> tc, gl |-> gl, vc |-> vc, nc |-> nc, mode |-> mode, op |-> op])))))))))))
+    P([s |-> s, to |-> to, ty |-> ty, pc |-> pc, tc |-> tc, gl |-> gl, vc |-> vc, nc |-> nc, mode |-> mode, op |-> op, wc |-> wc]))))))))))))
 
 BatchStep ==
   /\ BATCH # "no"
